@@ -57,9 +57,19 @@ def check_text(res, tier):
             res.evaluations += 2
             if tc.as_text() != text or b"".join(tc.iter_bytes()) != text.encode("utf8"):
                 problems.append(("text_content", "text_content(%r) gives %r" % (text, tc.as_text())))
-            jc = C.json_content({"k": [text, 1, None]})
+            payload = {"k": [text, 1, None]}
+            jc = C.json_content(payload)
+            payload["k"].append("added after json_content() returned")  # (its input is what it was given)
             if json.loads(b"".join(jc.iter_bytes()).decode("utf8")) != {"k": [text, 1, None]}:
                 problems.append(("json_content", "json_content round trip of %r failed" % (text,)))
+            # as_text() is the decoding of what the source yields - each time it is asked
+            source = [text.encode("utf8")]
+            vc = C.Content(C.UTF8_TEXT, lambda: list(source))
+            first = vc.as_text()
+            source.append(b"+more")
+            res.evaluations += 1
+            if (first, vc.as_text()) != (text, text + "+more"):
+                problems.append(("as_text", "a content over a growing source: as_text() gave %r, then %r after b'+more' was appended to %r" % (first, vc.as_text(), text)))
             for charset in CHARSETS:
                 enc = charset or "ISO-8859-1"
                 try:
